@@ -153,7 +153,10 @@ def rule_sentinel(ctx):
         if isinstance(n, ast.Assign) and isinstance(n.value, ast.Call) and call_name(n.value) in ("int", "float"):
             for t, pol in _flatten_conditions(cfgw.path_conditions(n)):
                 if pol and isinstance(t, ast.Call) and call_name(t) == "isinstance":
-                    conv[unparse(t.args[1])] = call_name(n.value)
+                    # the conversion must be applied to the value itself: float(str(v)) / float(round(v))
+                    # give another number for float32 or long mantissas
+                    exact = len(n.value.args) == 1 and unparse(n.value.args[0]) == unparse(t.args[0]) and not n.value.keywords
+                    conv[unparse(t.args[1])] = call_name(n.value) if exact else f"{call_name(n.value)}({unparse(n.value.args[0]) if n.value.args else ''})"
     ok = conv.get("integer") == "int" and conv.get("floating") == "float"
     ctx.ob(R, construct(w, "numpy integer -> int, numpy floating -> float"), ok, loc(w), "" if ok else f"found {conv}")
     # keys of content: json turns numeric keys into str(key); the reader looks them up the same way
@@ -281,6 +284,7 @@ MUTANTS = [
     M("load_carver pops another key", [(F_BC, "    _history = auto_carver_json.pop(\"_history\", None)", "    _history = auto_carver_json.pop(\"history\", None)")], "R-json-extras"),
     M("history not restored", [(F_BC, "    loaded_discretizer._history = _history  # pylint: disable=W0212\n", "")], "R-json-extras", "restored"),
     M("sentinel literals differ", [(F_SER, "    if value == \"numpy.inf\":  # numpy.inf value", "    if value == \"inf\":  # numpy.inf value")], "R-sentinel", "sentinel"),
+    M("numpy floats serialised through their shortest repr", [(F_SER, "        output = float(value)\n", "        output = float(str(value))\n")], "R-sentinel", "numpy integer"),
     M("numpy floats left as is", [(F_SER, "    elif isinstance(value, floating):  # np.float value\n        output = float(value)\n", "")], "R-sentinel", "numpy integer"),
     M("numeric keys looked up unconverted", [(F_SER, "            if not isinstance(value, str) and isfinite(value):\n                content_key = str(value)\n", "")], "R-sentinel", "looked up"),
     M("content not serialised through the converter", [(F_SER, "            \"content\": convert_values_to_base_types(order.content),", "            \"content\": order.content,")], "R-sentinel", "order and content"),
